@@ -29,8 +29,7 @@ package alg
 //@   loop 2: decreases len(s)
 
 // ---- text of byte sequences for the escaping / validation routines
-//@ pure func htmlSpec(src string) string
-//@ pure func utf8Valid(src string) bool
+//@ pure func htmlSpec(src text) text
 
 // HtmlEscape (ownership part, C06): the result lives in dst's array or in a new
 // one; src is not written; nothing is pooled.  (Functional part: C20.)
@@ -38,3 +37,4 @@ package alg
 //@   modifies dst[_]
 //@   ensures base(result) == base(dst) || fresh(result)
 //@   ensures base(result) != 0
+//@   ensures len(dst) == 0 ==> txt(result) == htmlSpec(txt(src))
